@@ -17,6 +17,7 @@ from mutagen._util import cdata, MutagenError, loadfile, \
     convert_error, reraise, endswith
 from mutagen.id3 import ID3
 from mutagen.id3._util import ID3NoHeaderError, error as ID3Error
+from mutagen.id3._tags import ID3Header
 
 
 __all__ = ["DSF", "Open", "delete"]
@@ -213,9 +214,17 @@ class _DSFID3(ID3):
             dsd_header.offset_metdata_chunk = fileobj.tell()
             dsd_header.write()
 
+        # the size of the tag that is in the file now, which is not the size
+        # of the tag this object was loaded from once it has been saved
+        fileobj.seek(dsd_header.offset_metdata_chunk)
+        try:
+            old_size = ID3Header(fileobj).size
+        except ID3NoHeaderError:
+            old_size = 0
+
         try:
             data = self._prepare_data(
-                fileobj, dsd_header.offset_metdata_chunk, self.size,
+                fileobj, dsd_header.offset_metdata_chunk, old_size,
                 v2_version, v23_sep, padding)
         except ID3Error as e:
             reraise(error, e, sys.exc_info()[2])
